@@ -92,6 +92,30 @@ def scenario(ctx, log, run_id, sw, ww, keep_alive, rnd, quick, max_scrape=3, eve
         t.stop()
 
 
+def digits_scenario(ctx, log, run_id, rnd):
+    """Replies of 4-, 2- and 3-digit lengths in turn on one kept-alive connection (the Content-Length
+    field of the re-used header buffer must be rewritten cleanly each time)."""
+    port = free_port(socket.SOCK_STREAM)
+    t = Tracker(ctx, "http", http_config(port, 1, 2, True, max_scrape=100, max_peers=50), "c16_digits")
+    try:
+        tcp_wait_ready(("127.0.0.1", port), tracker=t)
+        log.add({"ev": "reset", "run": run_id, "socket_workers": 1, "swarm_workers": 2, "keep_alive": True,
+                 "max_scrape": 100, "max_peers": 50, "scenario": "digits"})
+        c = HttpConn("127.0.0.2", ("127.0.0.1", port))
+        i = 0
+        for p in range(12):
+            do_request(log, c, "d%d" % run_id, i, {"kind": "announce", "h": 1, "port": 5200 + p, "numwant": 50}, rnd)
+            i += 1
+        for hs in (list(range(1, 21)), [1], list(range(1, 26)), [2], [1, 2, 3]):
+            do_request(log, c, "d%d" % run_id, i, {"kind": "scrape", "hs": hs}, rnd)
+            i += 1
+            do_request(log, c, "d%d" % run_id, i, {"kind": "announce", "h": 2, "port": 5300 + i, "numwant": 1}, rnd)
+            i += 1
+        c.close()
+    finally:
+        t.stop()
+
+
 def classify(ev, prefix, last_state):
     sig = {"tracker": "http", "part": "server"}
     for e in prefix[:1]:
@@ -196,6 +220,7 @@ def run(ctx):
         [(s, w, ka) for s in (1, 2, 3) for w in (1, 2, 3) for ka in (True, False)]
     for k, (sw, ww, ka) in enumerate(combos):
         scenario(ctx, log, k, sw, ww, ka, rnd, ctx.quick(), every_offset=(not ctx.quick() and k == len(combos) - 2))
+    digits_scenario(ctx, log, 90, rnd)
     tp = ctx.path("http_server.ndjson")
     with open(tp, "w") as f:
         for e in log.events:
